@@ -1,5 +1,5 @@
+//@@ include url_types
 // ===================== shared repo types: settings, prepared request =====================
-#[verifier::external_type_specification] #[verifier::external_body] pub struct ExUrl(Url);
 #[verifier::external_type_specification] #[verifier::external_body] pub struct ExEncoding(encoding_rs::Encoding);
 //@@ item src/charsets.rs type Charset
 //@@ end
